@@ -54,6 +54,7 @@ def tpl (s : Sexp) : Template.Tpl :=
     | some "field", [n] => .field n.toBytes
     | some "line", _ => .line
     | some "ts", _ => .ts
+    | some "epoch", [n] => .epoch n.toBytes
     | _, _ => .fail
 
 def path (s : Sexp) : JsonExpr.Path :=
